@@ -111,7 +111,9 @@ def run_all():
         chk(acmodel.build_b5(recs) == f[10:-2], "B5 record layout")
         f = bytes.fromhex(CAPS_FRAMES[2])
         recs = [(0x021E, b"\x01"), (0x0213, b"\x01"), (0x0222, b"\x00"), (0x0219, b"\x00"), (0x0039, b"\x01")]
-        chk(acmodel.build_b5(recs, additional=False) == f[10:-2], "B5 trailer layout (additional flag, 0)")
+        chk(acmodel.build_b5(recs, additional=False) + b"\x00" == f[10:-2], "B5 trailer layout (additional flag, message id)")
+        f2 = bytes.fromhex(CAPS_FRAMES[1])
+        chk(f2[-4] == 0x01 and f2[-3] == 0x00, "B5 capture with the additional flag set")
         # property reply layout
         f = bytes.fromhex(PROP_FRAMES[1])
         chk(acmodel.build_prop_reply(0xB0, [(0x000A, 0x00, b"\x32"), (0x0009, 0x11, b"\x00")]) == f[10:-3],
